@@ -54,6 +54,11 @@ def r1_step_wrappers(ctx, cfg='A'):
                         seq.append(('run', e))
                 elif e[0] == 'w' and e[2] == LF:
                     seq.append(('restore', e))
+            # a step is the dispatch loop under a temporary limit and nothing else: it must not touch the clock or the counter itself
+            # (a paused runtime reports the time of the last dispatched event — also when the step ran out of events)
+            stray = [e for e in effs if (e[0] == 'c' and 'des::time::SimTime::set_now' in e[1].names()) or (e[0] == 'w' and CNT is not None and e[2] == CNT)]
+            ctx.check(not stray, 'wrapper-no-clock:%s' % m, 'Runtime::%s neither writes the clock nor the dispatch counter outside the dispatch step' % m,
+                      f.where_path(path), len(stray))
             kinds = [k for k, _ in seq]
             ok = kinds == ['swap', 'run', 'restore']
             detail = {'sequence': kinds}
